@@ -27,6 +27,7 @@ ASSUMPTIONS = [
     "parameters inside the models' lmfit bounds with R>0, t>=1e-12, E_S>0 (Clifford), 0<alpha<90 (cone) / 30 (pyramid)",
     "prefactor overflow (E near 1e308) is outside the claim",
     "oracle: /verif/specs.py, hand transcription of Hertz/Sneddon/Bilodeau/Clifford formulas",
+    "exact Sneddon sphere (thorough): Sneddon 1965 eqs 6.13/6.15 in the form delta/R = u atanh u, F/(E' R^2) = (1+u^2) atanh u - u; atanh enclosed piecewise (convexity), end points by a rational series with remainder bound",
 ]
 BUDGET_S = {"quick": 600, "thorough": 2400}
 QUERY_TIMEOUT_MS = {"quick": 60000, "thorough": 240000}
@@ -34,7 +35,9 @@ QUERY_TIMEOUT_MS = {"quick": 60000, "thorough": 240000}
 
 def bounds(tier):
     return {"N (array length)": [1, 3] if tier == "quick" else [1, 2, 3, 4, 6],
-            "models": list(specs.PARAMS), "outside": "arrays longer than N; IEEE rounding"}
+            "models": list(specs.PARAMS),
+            "truncated series vs exact Sneddon sphere (thorough)": "u = a/R in (0, 0.8337] split into %d sub-intervals; atanh enclosed between tangent and chord with rational end points; R=1, E/(1-nu^2)=1 plus homogeneity" % (len(sneddon_grid(tier)) - 1),
+            "outside": "arrays longer than N; IEEE rounding"}
 
 
 def tasks(tier):
@@ -46,7 +49,106 @@ def tasks(tier):
                        "args": {"key": key, "n": n},
                        "witnesses": ["in_contact", "off_contact", "vacuity_twin"]})
         ts.append({"name": f"doc:{key}", "fn": "t_doc", "args": {"key": key}})
+    if tier == "thorough":
+        edges = sneddon_grid(tier)
+        for k in range(len(edges) - 1):
+            ts.append({"name": f"sneddon-exact:u[{float(edges[k]):.4f},{float(edges[k + 1]):.4f}]",
+                       "fn": "t_sneddon_exact", "args": {"k": k}, "witnesses": ["interval"],
+                       "timeout_ms": 300000})
+        ts.append({"name": "sneddon-exact:homogeneity", "fn": "t_homogeneous",
+                   "args": {"key": "sneddon_spher_approx"}, "witnesses": ["interval"]})
     return ts
+
+
+# ---------------------------------------------------------------------------
+# truncated Sneddon series vs the exact (implicit) Sneddon sphere solution
+#
+#   u = a/R, T = atanh(u):  delta/R = u*T,  F/(E' R^2) = (1+u^2)*T - u
+#
+# atanh is convex on [0,1): on each sub-interval [u_k, u_k+1] it lies above its
+# tangent at u_k and below its chord; the end-point values are enclosed by
+# rationals (odd series with a geometric remainder bound).
+
+def _atanh_bounds(u, terms=400):
+    """Rational (lo, hi) with lo <= atanh(u) <= hi for a rational 0 <= u < 1."""
+    u = Fr(u)
+    if u == 0:
+        return Fr(0), Fr(0)
+    tot = Fr(0)
+    p = u
+    u2 = u * u
+    for j in range(terms):
+        tot += p / (2 * j + 1)
+        p *= u2
+    rem = p / ((2 * terms + 1) * (1 - u2))
+    # keep the numbers small: outward rounding to 1e-12
+    q = 10 ** 12
+    lo = Fr(int(tot * q), q)
+    hi = Fr(int((tot + rem) * q) + 1, q)
+    return lo, hi
+
+
+def sneddon_grid(tier):
+    """Sub-intervals of u covering delta/R = u*atanh(u) in (0, 1]."""
+    # u* with u* atanh(u*) = 1 is 0.83355...; cover up to 0.8337
+    edges = [Fr(0)]
+    u = Fr(0)
+    while u < Fr(8337, 10000):
+        # chord-tangent gap ~ T''(u) h^2 / 8 must stay below ~2e-5
+        t2 = float(2 * max(u, Fr(1, 20)) / (1 - u * u) ** 2)
+        h = (8 * 2e-5 / t2) ** 0.5
+        h = Fr(max(1, int(h * 10000)), 10000)
+        u = min(u + h, Fr(8337, 10000))
+        edges.append(u)
+    return edges
+
+
+def t_sneddon_exact(k):
+    mod = _load("sneddon_spher_approx")
+    edges = sneddon_grid("thorough")
+    a, b = edges[k], edges[k + 1]
+    Ta = _atanh_bounds(a)
+    Tb = _atanh_bounds(b)
+    u, T = real("u"), real("T")
+    assume(u >= a)
+    assume(u <= b)
+    assume(u > 0)
+    # tangent at a (below), chord through the end points (above)
+    assume(T >= Ta[0] + (u - a) / (1 - a * a))
+    assume(T <= Ta[1] + (Tb[1] - Ta[1]) * (u - a) / (b - a))
+    x = u * T
+    assume(x <= 1)          # depths up to the tip radius
+    check_assumptions()
+    out = mod.model_func(symnp.SymArr([Fr(0)]), E=1, R=1, nu=0, contact_point=x, baseline=0)
+    series = out.elems[0]
+    exact = (1 + u * u) * T - u
+    # maximum force of the exact solution on (0, R]: F(u*) = 1/u* >= 1/0.8337
+    fmax_lo = Fr(10000, 8337)
+    tol = Fr(1, 10000) * fmax_lo
+    prove("series-within-1e-4-of-max-exact-force", core.all_of([series - exact <= tol, exact - series <= tol]),
+          info={"u interval": [str(a), str(b)]})
+    witness("interval")
+    return {"interval": [float(a), float(b)], "atanh(a)": float(Ta[0])}
+
+
+def t_homogeneous(key):
+    """F(l*delta; l*R) - b = l^2 (F(delta; R) - b): lifts the normalised
+    Sneddon comparison (R = 1) to every tip radius."""
+    mod = _load(key)
+    p = common.sym_params(key)
+    lam = real("lam")
+    assume(lam > 0)
+    d = real("delta0")
+    check_assumptions()
+    a = mod.model_func(symnp.SymArr([d]), **p).elems[0]
+    q = dict(p, R=p["R"] * lam, contact_point=p["contact_point"] * lam)
+    b = mod.model_func(symnp.SymArr([d * lam]), **q).elems[0]
+    prove("quadratic-homogeneity-in-length", (b - p["baseline"]) == (a - p["baseline"]) * lam * lam)
+    prove("linear-in-reduced-modulus",
+          mod.model_func(symnp.SymArr([d]), **dict(p, E=p["E"] * lam)).elems[0] - p["baseline"]
+          == (a - p["baseline"]) * lam)
+    witness("interval")
+    return {}
 
 
 def _load(key):
@@ -95,6 +197,8 @@ def t_doc(key):
 
 
 def classify(task, ob):
+    if task["fn"] in ("t_sneddon_exact", "t_homogeneous"):
+        return "sneddon-exact:" + ob["name"]
     if task["fn"] == "t_doc":
         return f"doc:{task['args']['key']}:{ob['name']}"
     nm = ob["name"].split("[")[0]
@@ -102,6 +206,26 @@ def classify(task, ob):
 
 
 def replay(task, ob, model):
+    if task["fn"] == "t_sneddon_exact":
+        u = float(model.get("u", 0.5))
+        return common.REPLAY_HEAD + f'''
+import math
+from nanite.model import models_available
+f = models_available["sneddon_spher_approx"].module.model_func
+us = np.linspace(max(1e-6, {u} - 0.01), min(0.8335, {u} + 0.01), 2001)
+T = np.arctanh(us); x = us * T
+exact = (1 + us**2) * T - us
+series = f(np.zeros_like(x) , E=1.0, R=1.0, nu=0.0, contact_point=0.0, baseline=0.0) * 0
+series = np.array([f(np.array([0.0]), E=1.0, R=1.0, nu=0.0, contact_point=xi, baseline=0.0)[0] for xi in x])
+fmax = 1 / 0.83355
+err = np.max(np.abs(series - exact)[x <= 1]) / fmax
+print("max |series - exact| / Fmax near u =", {u}, ":", err)
+if err > 1e-4:
+    print("REPRODUCED: truncated series deviates from the exact Sneddon solution by more than 1e-4 of the maximum force"); sys.exit(1)
+sys.exit(0)
+'''
+    if task["fn"] == "t_homogeneous":
+        return None
     key = task["args"]["key"]
     if task["fn"] == "t_doc":
         return common.REPLAY_HEAD + f'''
